@@ -75,8 +75,38 @@ def enumerate_models(text=None, asts=None, instance="", vis_preds=None, show_ter
     return res
 
 
-def compare(src, dst, instance, vis_preds, show_terms=False, costs=True, one_to_one=False, consts=(), dst_asts=None):
-    """returns dict(status=same|differ|out_of_scope|src_error|capped, detail=...)"""
+def fix_constraints(vis_preds, true_atoms):
+    """ASP text that pins the visible part of an answer set: the atoms of the visible signatures are
+    exactly `true_atoms` (used for targeted replay of one claimed answer set)"""
+    out = []
+    by = {}
+    for sym in true_atoms:
+        if sym.startswith(SHOW_PREFIX):
+            continue
+        s = clingo.parse_term(sym)
+        by.setdefault((s.name, len(s.arguments)), []).append(s)
+    for k, (name, ar) in enumerate(sorted(vis_preds)):
+        aux = f"__vf_fix{k}"
+        for s in by.get((name, ar), []):
+            out.append(str(clingo.Function(aux, s.arguments)) + ".")
+        vs = ",".join(f"X{i}" for i in range(ar))
+        if ar:
+            out.append(f":- {name}({vs}), not {aux}({vs}).")
+            out.append(f":- {aux}({vs}), not {name}({vs}).")
+        else:
+            out.append(f":- {name}, not {aux}.")
+            out.append(f":- {aux}, not {name}.")
+    return "\n".join(out)
+
+
+def compare(src, dst, instance, vis_preds, show_terms=False, costs=True, one_to_one=False, consts=(), dst_asts=None, fix=None):
+    """returns dict(status=same|differ|out_of_scope|src_error|capped, detail=...)
+    fix: list of true visible atoms -> only answer sets with exactly this visible part are compared"""
+    if fix is not None and vis_preds is not None:
+        scope = enumerate_models(text=src, instance=instance, vis_preds=set(), consts=consts, cap=1)
+        if scope.scope and not scope.error:
+            return {"status": "out_of_scope", "detail": scope.scope[:3]}
+        instance = instance + "\n" + fix_constraints(vis_preds, fix)
     a = enumerate_models(text=src, instance=instance, vis_preds=vis_preds, show_terms=show_terms, consts=consts)
     if a.error:
         return {"status": "src_error", "detail": a.error}
